@@ -225,6 +225,15 @@ def check_property(pid, tier, cache=True, only_groups=None):
             # the sidecar contract could not be bound to / executed on the current source (renamed local, construct
             # outside the modelled subset of the INDUCTIVE mode). Pre- and postcondition do not mention locals: fall back
             # to the bounded stand-in of the same contract; the group then counts as bounded, not as proved.
+            sib = getattr(grp, 'standin', None)
+            if grp.strength == 'P' and sib and sib in gnames and all('Unbound' in e['error'] or 'Unsupported' in e['error'] for e in g['errors']):
+                # the bounded stand-in of the same function is a group of this very check (its own failures are reported there)
+                log("      inductive contract of %s not applicable to the current source (%s); bounded stand-in: group %s of this check"
+                    % (gn, g['errors'][0]['error'].strip().split('\n')[-1][:160], sib))
+                g['downgraded'] = 'P contract not applicable (%s); bounded stand-in: group %s (%s)' % (
+                    g['errors'][0]['error'].strip().split('\n')[-1][:200], sib, GROUPS[sib].bound_text)
+                downgraded.append(gn)
+                continue
             if grp.strength == 'P' and hasattr(grp, 'contract') and getattr(grp, 'finder_sizes', None):
                 grp._finder_stats = dict(obligations=0, discharged=0, unknown=0, errors=0)
                 verdict, conf = run_finder(grp, known_by_group.get(gn, ()), log)
